@@ -7,6 +7,7 @@ import (
 	"context"
 	"database/sql"
 	"fmt"
+	"github.com/ProtonMail/go-crypto/openpgp"
 	"io"
 	"os"
 	"path/filepath"
@@ -69,13 +70,15 @@ func (l nopLogger) With(...interface{}) golog.Logger { return l }
 type Opts struct {
 	// StrangerSig: signatures are verified with the stranger's public key (decryption keys stay the owner's)
 	StrangerSig bool
-	Dir         string // scratch directory owned by the caller
-	Drive       string // path of the drive file (default Dir/drive.tar)
-	DB          string // path of the sqlite index (default Dir/index.sqlite)
-	ReadOnly    bool
-	NilWrite    bool // read-only the way `serve http` builds it: writeOps=nil, getFileBuffer=nil
-	Stranger    bool // use the stranger's private halves for reading (C08/C09)
-	NoInit      bool // do not call Initialize
+	// EmptySigKeyring: (pgp) signatures are verified against a keyring that holds no key
+	EmptySigKeyring bool
+	Dir             string // scratch directory owned by the caller
+	Drive           string // path of the drive file (default Dir/drive.tar)
+	DB              string // path of the sqlite index (default Dir/index.sqlite)
+	ReadOnly        bool
+	NilWrite        bool // read-only the way `serve http` builds it: writeOps=nil, getFileBuffer=nil
+	Stranger        bool // use the stranger's private halves for reading (C08/C09)
+	NoInit          bool // do not call Initialize
 	// Overwrite builds the tape manager the way `stfs operation initialize` and
 	// `operation archive --overwrite` do: the first writer starts the tape over.
 	Overwrite bool
@@ -172,6 +175,10 @@ func New(cfg Cfg, o Opts) (*World, error) {
 		rk = Stranger()
 	}
 	w.ReadCrypto = config.CryptoConfig{Recipient: rk.SigRecipient(cfg.Signature), Identity: rk.EncIdentity(cfg.Encryption)}
+	if o.EmptySigKeyring && cfg.Signature == "pgp" {
+		// what parsing an empty public key file yields: a keyring without any key
+		w.ReadCrypto.Recipient = openpgp.EntityList{}
+	}
 	if o.StrangerSig {
 		// the reader can decrypt, but verifies against another writer's public key
 		w.ReadCrypto.Recipient = Stranger().SigRecipient(cfg.Signature)
